@@ -234,6 +234,34 @@ def zero_filter(check, prog, canon):
         check.require(okm, 'T4-zero-filter', 'zero_filter average',
                       'the two interpolations are averaged skipping NaN (an edge pixel '
                       'uses the one interpolation that exists)', loc)
+    # the values handed back are that average itself: taken over the stacking
+    # dimension only, and not converted afterwards (the neighbours' mean of an
+    # integer image is not an integer)
+    means = [x for x in subterms(body) if x[0] == 'call' and isinstance(x[1], tuple)
+             and x[1][0] == 'attr' and x[1][2] == 'mean']
+    cats = [x for x in subterms(body) if x[0] == 'call' and x[1] == 'xarray.concat']
+    if means and cats:
+        m = means[0]
+        md = kw(m, 'dim') or (m[2][0] if m[2] else None)
+        cd = kw(cats[0], 'dim') or (cats[0][2][1] if len(cats[0][2]) > 1 else None)
+        check.require(md is not None and md == cd and md[0] == 'const' and
+                      md[1] not in ('x', 'y', 'z'), 'T4-zero-filter',
+                      'zero_filter average axis',
+                      'the average runs over the dimension the two interpolations '
+                      'were stacked along, and over nothing else', loc,
+                      fail_detail='stacked along %s, averaged over %s' % (
+                          show(cd) if cd else None, show(md) if md else 'every axis'))
+        check.require(body == m, 'T4-zero-filter', 'zero_filter result',
+                      'the returned values are the average of the interpolations, '
+                      'unconverted', loc,
+                      fail_detail='returns %s' % show(body)[:160])
+        nan_on = [t for o in res.raises for t, pol in o.cond
+                  if calls_in(t, 'numpy.isnan') and pol]
+        check.require(bool(nan_on) and all(
+            any(x == ('call', 'numpy.isnan', (m,), ()) for x in subterms(t))
+            for t in nan_on), 'T4-zero-filter', 'zero_filter refusal subject',
+            'the NaN test that refuses an image looks at the values that would be '
+            'returned', loc)
     # refuses remaining NaN
     ok = any('BadImage' in show(o.value) and any(
         calls_in(t, 'numpy.isnan') and pol for t, pol in o.cond) for o in res.raises)
